@@ -8,6 +8,48 @@ RULE = ("_is_mask on all 66 mask/wildcard values, all their one-bit perturbation
         "non-trivial = a distinct 32-bit value tested for mask shape, or an outside address whose image was tested for collision")
 
 
+MASK_WITH_LEN = ["255.255.255.0/24", "224.0.0.0/4", "240.0.0.0/4", "128.0.0.0/1", "192.0.0.0/2", "255.255.255.255/32", "0.0.0.3/32", "0.0.0.0/0", "255.0.0.0/8", "0.255.255.255/8"]
+
+
+def cli_preserved(ctx, rng, q):
+    """through the real command line: --preserve-addresses together with --preserve-private-addresses (and each alone); one address out of
+    every /8 of the classes of the preserved blocks: nothing outside may land inside, everything inside stays as written"""
+    import base64
+    import ipaddress
+    import json
+    import vlib
+    n = 0
+    combos = [(["150.0.0.0/8"], True), (["150.0.0.0/8", "9.0.0.0/8"], True), (["150.0.0.0/8"], False), (None, True)]
+    cases, metas = [], []
+    for nets, private in combos:
+        for salt in (["s", "T5"] if q else ["s", "T5", "", "salt3", "zz", "x1", "x2", "x3"]):
+            addrs = ["%d.%d.%d.%d" % (a, rng.randrange(256), rng.randrange(256), rng.randrange(1, 255)) for a in range(1, 224)]
+            addrs += ["150.3.2.1", "10.9.8.7", "172.16.1.1", "172.31.255.254", "192.168.1.1", "9.1.2.3"]
+            text = "".join("host %s\n" % a for a in addrs)
+            opts = {"ip": True, "salt": salt, "networks": nets, "private": private, "hostbits": 0, "single": "r.cfg"}
+            cases.append(["files", "main", json.dumps(opts), json.dumps([["r.cfg", base64.b64encode(text.encode()).decode(), {}]])])
+            metas.append((nets, private, salt, addrs))
+    outs = vlib.run_impl(cases)
+    for c, out, (nets, private, salt, addrs) in zip(cases, outs, metas):
+        allnets = [ipaddress.ip_network(x) for x in (nets or [])] + ([ipaddress.ip_network(x) for x in ("10.0.0.0/8", "172.16.0.0/12", "192.168.0.0/16")] if private else [])
+        try:
+            res = json.loads(out)
+            got = [l.split()[1] for l in res["out"]["r.cfg"].splitlines()]
+            assert len(got) == len(addrs) and not res["raised"]
+        except Exception:
+            ctx.fail("command-line run with preserved networks did not produce the expected file", {"argv_options": c[2]}, out[:300], label="impl-cli")
+            continue
+        for a, b in zip(addrs, got):
+            n += 1
+            ia, ib = ipaddress.ip_address(a), ipaddress.ip_address(b)
+            for net in allnets:
+                if ia in net and a != b:
+                    ctx.fail("command line: address %s inside preserved network %s was changed to %s" % (a, net, b), {"options": json.loads(c[2])}, b, a, label="impl-cli")
+                if ia not in net and ib in net:
+                    ctx.fail("command line: address %s outside preserved network %s is mapped INTO it (%s)" % (a, net, b), {"options": json.loads(c[2])}, b, label="impl-cli")
+    return n
+
+
 def project_nets(c, out):
     """should_anonymize answers as they are; for anonymize requests only the membership of the image in each preserved network"""
     nets = ipref.nets_of(c[4])
@@ -82,7 +124,7 @@ def run(ctx):
         for _ in range(2 if q else 20):
             lines = []
             for _k in range(6):
-                toks = [rng.choice(linegen.V4_MASK + inside + ["8.8.8.8", "100.1.2.3"]) for _j in range(3)] + [rng.choice(linegen.ORDINARY)]
+                toks = [rng.choice(linegen.V4_MASK + MASK_WITH_LEN + inside + ["8.8.8.8", "100.1.2.3"]) for _j in range(3)] + [rng.choice(linegen.ORDINARY)]
                 rng.shuffle(toks)
                 lines.append(linegen.mk_line(rng, toks))
             tcases.append((textgen.pipe(lines, flags="a", salt=rng.choice(ipgen.SALTS), nets=nets, b4=rng.choice([0, 8])), inside))
@@ -94,9 +136,10 @@ def run(ctx):
         for l, o in zip(c[11:], textgen.outlines(out)):
             for a, b in zip(l.split(), o.split()):
                 core = a.strip("(),=")
-                if (core in linegen.V4_MASK or core in inside) and a != b:
-                    ctx.fail("%s %r is not left exactly as written: %r" % ("netmask/wildcard value" if core in linegen.V4_MASK else "address inside a preserved network", a, b), {"line": l, "networks": c[7]}, o, label="impl-text")
-    ctx.evaluations = len(vals) + sum(len(ipgen.ops_of(c)) for c in cases) + sum(len(c) - 11 for c, _ in tcases)
+                if (core in linegen.V4_MASK or core in MASK_WITH_LEN or core in inside) and a != b:
+                    ctx.fail("%s %r is not left exactly as written: %r" % ("netmask/wildcard value" if (core in linegen.V4_MASK or core in MASK_WITH_LEN) else "address inside a preserved network", a, b), {"line": l, "networks": c[7]}, o, label="impl-text")
+    n_cli = cli_preserved(ctx, rng, q)
+    ctx.evaluations = n_cli + len(vals) + sum(len(ipgen.ops_of(c)) for c in cases) + sum(len(c) - 11 for c, _ in tcases)
     ctx.distinct_nontrivial = len(vals) + nt
     ctx.search_stats = {"mask_values": len(vals), "network_cases": len(cases), "outside_images_checked": nt}
     ctx.samples = [{"case": mcases[0][:5] + [mcases[0][5][:120] + " ..."], "impl": i[0][:60]}, {"case": cases[0], "impl": i2[0]}]
